@@ -337,3 +337,40 @@ def c11_incompatible_shapes_raise(w, v):
     rows = {s[0] for s in shapes if s[0] != 1}
     cols = {s[1] for s in shapes if s[1] != 1}
     return len(rows) > 1 or len(cols) > 1
+
+
+@matcher('c12_logical_typed_text_skipped')
+def c12_logical_typed_text_skipped(w, v):
+    """AND / OR / XOR skip a directly typed text argument instead of returning
+    #VALUE! (the repository's tests pin OR("0",FALSE) = FALSE)."""
+    name = v['sig'].split(':')[0]
+    if name not in ('AND', 'OR', 'XOR'):
+        return False
+    args = ((w.get('case') or {}).get('args')) or []
+    typed_text = any(a.get('t') == 'lit' and isinstance(a.get('v'), str)
+                     for a in args)
+    return typed_text and w.get('accepted') == ['#VALUE!'] and \
+        w.get('observed') in ('TRUE', 'FALSE', '#VALUE!')
+
+
+@matcher('c12_text_count_argument')
+def c12_text_count_argument(w, v):
+    """LEFT / RIGHT / MID convert their count / position argument with int():
+    empty text counts as 0 instead of #VALUE! and numeric text with decimals
+    ("1.5") is rejected instead of truncated."""
+    name = v['sig'].split(':')[0]
+    if name not in ('LEFT', 'RIGHT', 'MID'):
+        return False
+    args = ((w.get('case') or {}).get('args')) or []
+    counts = [a.get('v') for a in args[1:] if a.get('t') in ('lit', 'ref')]
+    return any(isinstance(c, str) for c in counts)
+
+
+@matcher('c12_sum_family_counts_numeric_text')
+def c12_sum_family_counts_numeric_text(w, v):
+    """SUM / PRODUCT / SUMSQ / SUMPRODUCT add text that looks like a number
+    found inside a referenced range or array (Excel skips it); the repository's
+    test_compile_01 (=SUM(AA) with AA = ["100", "1"] -> 101) relies on it."""
+    name = v['sig'].split(':')[0]
+    return name in ('SUM', 'PRODUCT', 'SUMSQ', 'SUMPRODUCT') and \
+        w.get('matches_when_numeric_text_in_references_counts') is True
